@@ -1,10 +1,18 @@
 package main
 
 import (
+	"os"
+
 	"github.com/spq/pkappa2/verif/bsim"
+	"github.com/spq/pkappa2/verif/mgrsim"
 	"github.com/spq/pkappa2/verif/sim"
 )
 
 var engines = map[string]sim.Engine{
-	"bsim": bsim.Engine{},
+	"bsim":   bsim.Engine{},
+	"mgrsim": mgrsim.Engine{},
+}
+
+func init() {
+	mgrsim.VconvPath = os.Getenv("VERIF_VCONV")
 }
